@@ -190,6 +190,27 @@ func cmdRun(args []string) int {
 		fmt.Fprintf(os.Stderr, "INCONCLUSIVE property=%s engine: %v\n", id, err)
 		return 3
 	}
+	// control-flow-graph queries over real functions (data abstracted)
+	var cfgResults []*cfgResult
+	if *only == "" || strings.Contains("cfg", *only) {
+		for _, ck := range cd.CFG {
+			r := runCFGCheck(w, ck)
+			cfgResults = append(cfgResults, r)
+			key := "cfg/" + ck.Name
+			ob := &gosym.Obligation{Name: key, Site: r.Func}
+			total.Obligations[key] = ob
+			total.Queries += r.Queries
+			total.SolverTime += r.Solver
+			switch {
+			case r.Err != "":
+				total.Unsupported["cfg check "+ck.Name+": "+r.Err]++
+			case r.Holds:
+				ob.Discharged++
+			default:
+				ob.Violated++
+			}
+		}
+	}
 	wall := time.Since(t0)
 
 	// known findings and replay of violations
@@ -228,6 +249,28 @@ func cmdRun(args []string) int {
 		}
 	}
 
+	for i, r := range cfgResults {
+		if r.Err != "" || r.Holds {
+			continue
+		}
+		path := filepath.Join(verifDir, "replays", id, fmt.Sprintf("cfg-%d.json", i))
+		b, _ := json.MarshalIndent(map[string]interface{}{"property": id, "kind": "cfg-walk", "obligation": r.Name, "function": r.Func,
+			"releases_on_walk": r.Releases, "walk": r.Walk}, "", " ")
+		os.WriteFile(path, b, 0o644)
+		confirmed++
+		fmt.Printf("VIOLATION property=%s replay=%s\n", id, path)
+		fmt.Printf("  cfg obligation=%s\n  function=%s\n  a walk through one loop iteration with %d release calls (re-walked against the real control-flow graph):\n", r.Name, r.Func, r.Releases)
+		for _, l := range r.Walk {
+			if strings.Contains(l, "release") || strings.Contains(l, "if.") || true {
+				fmt.Printf("    %s\n", l)
+			}
+		}
+	}
+	if *verbose {
+		for _, r := range cfgResults {
+			fmt.Printf("  cfg %q: func=%s blocks=%d edges=%d steps=%d holds=%v err=%q solver=%.1fs\n", r.Name, r.Func, r.Blocks, r.Edges, r.Steps, r.Holds, r.Err, r.Solver.Seconds())
+		}
+	}
 	inconclusive := len(total.Unsupported) > 0 || total.SolverUnknown > 0 || total.UnwindFail > 0 || total.LimitHit
 	// vacuity: every harness must have completed at least one path and every declared obligation reached
 	var vac []string
@@ -486,6 +529,21 @@ func cmdReplay(args []string) int {
 	if err != nil {
 		fmt.Fprintln(os.Stderr, err)
 		return 3
+	}
+	if d.Kind == "cfg-walk" {
+		// a control-flow-graph witness: the query is re-run on the current tree
+		for _, ck := range cd.CFG {
+			r := runCFGCheck(w, ck)
+			if r.Err == "" && !r.Holds {
+				fmt.Printf("VIOLATION property=%s replay=%s\n  cfg obligation %q: a walk with %d release calls exists in %s\n", id, path, r.Name, r.Releases, r.Func)
+				for _, l := range r.Walk {
+					fmt.Printf("    %s\n", l)
+				}
+				return 1
+			}
+		}
+		fmt.Println("replay does not reproduce: the control-flow-graph queries hold on the current tree")
+		return 0
 	}
 	v := &gosym.Violation{Harness: d.Harness, Name: d.Name, Kind: d.Kind, Inputs: d.Inputs}
 	ok, how := confirmReplay(w, cd, v, path)
